@@ -176,7 +176,8 @@ PROPS = {
     ),
     "C18": dict(
         modules=["bp_metrics"],
-        contracts=[f"{BPM}:CapacityCalculator.calculate", f"{BPM}:SoCCalculator.calculate"],
+        contracts=[f"{BPM}:CapacityCalculator.calculate", f"{BPM}:SoCCalculator.calculate",
+                   "frequenz.sdk.timeseries.battery_pool._methods:SendOnUpdate.update_working_batteries"],
         lemmas=["scaled_soc_is_monotone_and_bounded", "usable_capacity_scales_linearly",
                 "pool_soc_is_monotone_in_every_battery_soc"],
         bounded=[],
@@ -189,8 +190,9 @@ PROPS = {
                      "scale invariance of the pool SoC: proved per battery (weight scales linearly, rescaled SoC unchanged); "
                      "the step to the quotient of the two sums is distributivity and is not machine-checked (the inductive "
                      "version went `unknown`: nonlinear arithmetic under quantifiers)",
-                     "not under contract: LatestMetricsFetcher.fetch_next (NaN metrics dropped) and "
-                     "SendOnUpdate.update_working_batteries (cache eviction)"],
+                     "SendOnUpdate.update_working_batteries under contract for the working set and the recalculation request "
+                     "(cache and battery-inverter map are scripted collaborators: which cache entries are evicted is not stated)",
+                     "not under contract: LatestMetricsFetcher.fetch_next (NaN metrics dropped), SendOnUpdate._update_and_notify"],
     ),
     "C17": dict(
         modules=["pd_bounds"],
